@@ -5311,37 +5311,35 @@ Error Assembler::align(AlignMode align_mode, uint32_t alignment) {
   }
 
   uint32_t i = uint32_t(Support::align_up_diff<size_t>(offset(), alignment));
-  if (i == 0) {
-    return Error::kOk;
-  }
+  if (i > 0) {
+    CodeWriter writer(this);
+    ASMJIT_PROPAGATE(writer.ensure_space(this, i));
 
-  CodeWriter writer(this);
-  ASMJIT_PROPAGATE(writer.ensure_space(this, i));
+    switch (align_mode) {
+      case AlignMode::kCode: {
+        uint32_t pattern = kNopA64;
 
-  switch (align_mode) {
-    case AlignMode::kCode: {
-      uint32_t pattern = kNopA64;
+        if (ASMJIT_UNLIKELY(offset() & 0x3u)) {
+          return report_error(make_error(Error::kInvalidState));
+        }
 
-      if (ASMJIT_UNLIKELY(offset() & 0x3u)) {
-        return report_error(make_error(Error::kInvalidState));
+        while (i >= 4) {
+          writer.emit32u_le(pattern);
+          i -= 4;
+        }
+
+        ASMJIT_ASSERT(i == 0);
+        break;
       }
 
-      while (i >= 4) {
-        writer.emit32u_le(pattern);
-        i -= 4;
-      }
-
-      ASMJIT_ASSERT(i == 0);
-      break;
+      case AlignMode::kData:
+      case AlignMode::kZero:
+        writer.emit_zeros(i);
+        break;
     }
 
-    case AlignMode::kData:
-    case AlignMode::kZero:
-      writer.emit_zeros(i);
-      break;
+    writer.done(this);
   }
-
-  writer.done(this);
 
 #ifndef ASMJIT_NO_LOGGING
   if (_logger) {
